@@ -1,0 +1,7 @@
+//go:build !verif
+
+package server
+
+import "net"
+
+func verifFrameSink(net.Interface, []byte) bool { return false }
